@@ -206,4 +206,6 @@ def silence_labtech():
     for h in list(logger.handlers):
         logger.removeHandler(h)
     logger.addHandler(logging.NullHandler())
-    logger.setLevel(logging.INFO)
+    # lab.py's logging_redirect_tqdm adds a console handler for the duration of a
+    # run; keep it quiet by raising the level (message f-strings are still built).
+    logger.setLevel(logging.CRITICAL + 10)
